@@ -8,6 +8,9 @@ import shutil
 import subprocess
 import sys
 
+import os as _os
+_os.environ.setdefault('VERIF_EVIDENCE_DIR', '/tmp/verif_evidence_scratch')      # these tools run checks against a CHANGED tree: /verif/evidence is not theirs to write
+
 sid, prop, patch, demo, needs = sys.argv[1:6]
 checks = [prop] + sys.argv[6:]
 
